@@ -131,14 +131,49 @@ Definition path_ok (ex : bytes -> bool) (m : mapping) : bool :=
     && (if m_deleted m then negb (ex (shown_path m))
         else negb (suffixb deleted_sfx (m_path m)) || ex (m_path m))
   end.
-(* everything the kernel guarantees about a mapping *)
-Definition wf_kernel (ex : bytes -> bool) (m : mapping) : bool :=
+(* everything the kernel guarantees about a mapping: its header line ... *)
+Definition wf_header (ex : bytes -> bool) (m : mapping) : bool :=
   forallb tok_ok (hdr_tokens m) && negb (suffixb [58] (m_addr m))
   && match m_addr m with c :: _ => is_hex c | [] => false end      (* "%08lx-%08lx" *)
-  && path_ok ex m
-  && forallb wf_line (m_lines m)
-  && forallb (fun f => Nat.eqb (count_fig f (m_lines m)) 1) row_figs
-  && Nat.leb (count_fig FPrivateHugetlb (m_lines m)) 1.
+  && path_ok ex m.
+(* ... and the lines below it: each of the ten row figures exactly once, Private_Hugetlb at
+   most once, any number of other lines (any names that are not figure names and do not
+   start with "Private", ANY values) *)
+Definition wf_body (ls : list kline) : bool :=
+  forallb wf_line ls
+  && forallb (fun f => Nat.eqb (count_fig f ls) 1) row_figs
+  && Nat.leb (count_fig FPrivateHugetlb ls) 1.
+Definition wf_kernel (ex : bytes -> bool) (m : mapping) : bool :=
+  wf_header ex m && wf_body (m_lines m).
+
+(* the complete set of lines a current (6.x) kernel prints below a header, in its order;
+   [fv] = the eleven figures, [d 0..12] = the values of the other lines *)
+Definition k6_lines (fv : fig -> bytes) (d : nat -> bytes) (fl : list bytes) : list kline :=
+  [LFig FSize 0 (fv FSize); LOther (bs "KernelPageSize") 0 (d 0%nat) true; LOther (bs "MMUPageSize") 0 (d 1%nat) true;
+   LFig FRss 0 (fv FRss); LFig FPss 0 (fv FPss); LOther (bs "Pss_Dirty") 0 (d 2%nat) true;
+   LFig FSharedClean 0 (fv FSharedClean); LFig FSharedDirty 0 (fv FSharedDirty);
+   LFig FPrivateClean 0 (fv FPrivateClean); LFig FPrivateDirty 0 (fv FPrivateDirty);
+   LFig FReferenced 0 (fv FReferenced); LFig FAnonymous 0 (fv FAnonymous);
+   LOther (bs "KSM") 0 (d 3%nat) true; LOther (bs "LazyFree") 0 (d 4%nat) true;
+   LOther (bs "AnonHugePages") 0 (d 5%nat) true; LOther (bs "ShmemPmdMapped") 0 (d 6%nat) true;
+   LOther (bs "FilePmdMapped") 0 (d 7%nat) true; LOther (bs "Shared_Hugetlb") 0 (d 8%nat) true;
+   LFig FPrivateHugetlb 0 (fv FPrivateHugetlb); LFig FSwap 0 (fv FSwap);
+   LOther (bs "SwapPss") 0 (d 9%nat) true; LOther (bs "Locked") 0 (d 10%nat) true;
+   LOther (bs "THPeligible") 0 (d 11%nat) false; LOther (bs "ProtectionKey") 0 (d 12%nat) false;
+   LFlags fl].
+(* ... and in the roll-up file (no Size / page sizes / THPeligible / VmFlags; Pss split up) *)
+Definition k6_rollup_lines (fv : fig -> bytes) (d : nat -> bytes) : list kline :=
+  [LFig FRss 0 (fv FRss); LFig FPss 0 (fv FPss); LOther (bs "Pss_Dirty") 0 (d 0%nat) true;
+   LOther (bs "Pss_Anon") 0 (d 1%nat) true; LOther (bs "Pss_File") 0 (d 2%nat) true;
+   LOther (bs "Pss_Shmem") 0 (d 3%nat) true;
+   LFig FSharedClean 0 (fv FSharedClean); LFig FSharedDirty 0 (fv FSharedDirty);
+   LFig FPrivateClean 0 (fv FPrivateClean); LFig FPrivateDirty 0 (fv FPrivateDirty);
+   LFig FReferenced 0 (fv FReferenced); LFig FAnonymous 0 (fv FAnonymous);
+   LOther (bs "KSM") 0 (d 4%nat) true; LOther (bs "LazyFree") 0 (d 5%nat) true;
+   LOther (bs "AnonHugePages") 0 (d 6%nat) true; LOther (bs "ShmemPmdMapped") 0 (d 7%nat) true;
+   LOther (bs "FilePmdMapped") 0 (d 8%nat) true; LOther (bs "Shared_Hugetlb") 0 (d 9%nat) true;
+   LFig FPrivateHugetlb 0 (fv FPrivateHugetlb); LFig FSwap 0 (fv FSwap);
+   LOther (bs "SwapPss") 0 (d 10%nat) true; LOther (bs "Locked") 0 (d 11%nat) true].
 
 (* ---- demanded answers *)
 Definition kb (m : mapping) (f : fig) : Z := fig_kb f (m_lines m).
